@@ -236,6 +236,18 @@ func (p *Prog) fieldWrittenOnlyBy(al *ssa.Alloc, idx int, only *ssa.Store) bool 
 	if nt == nil {
 		return false
 	}
+	if p.onlyWriter == nil {
+		p.onlyWriter = map[*ssa.Store]bool{}
+	}
+	if v, ok := p.onlyWriter[only]; ok {
+		return v
+	}
+	res := p.fieldWrittenOnlyBy1(nt, idx, only)
+	p.onlyWriter[only] = res
+	return res
+}
+
+func (p *Prog) fieldWrittenOnlyBy1(nt *types.Named, idx int, only *ssa.Store) bool {
 	for _, f := range p.Funcs {
 		for _, a := range p.Accesses(f) {
 			if !a.Write || a.Pointee || a.Instr == ssa.Instruction(only) || freshBase(a) {
